@@ -303,4 +303,138 @@ theorem parseLoopT_fst : ∀ (fuel : Nat) (src : Str) (m : Map) (lk : Env) (t : 
 theorem parseT_fst (src : Str) (lk : Env) : (parseT src lk).1 = parse src lk :=
   parseLoopT_fst _ src [] lk 0
 
+/-! ## F.4 the one branch of `expEsc` that `parse` cannot reach -/
+
+/-- every backslash is followed by a character (the shape of the text `quotedLoop` collects) -/
+def paired : Str → Bool
+  | [] => true
+  | c :: cs => if c == '\\' then (match cs with | [] => false | _ :: r => paired r) else paired cs
+
+theorem paired_bs (d : Char) (r : Str) : paired ('\\' :: d :: r) = paired r := by
+  rw [paired.eq_def]; rfl
+
+theorem paired_other (c : Char) (cs : Str) (h : (c == '\\') = false) : paired (c :: cs) = paired cs := by
+  rw [paired.eq_def]; simp [h]
+
+theorem paired_append : ∀ (a b : Str), paired a = true → paired (a ++ b) = paired b := by
+  intro a
+  induction a using paired.induct with
+  | case1 => intro b _; rfl
+  | case2 c hc => intro b h; simp [paired, hc] at h
+  | case3 c hc d r ih =>
+    intro b h
+    rw [beq_iff_eq] at hc
+    subst hc
+    rw [paired_bs] at h
+    rw [List.cons_append, List.cons_append, paired_bs]
+    exact ih b h
+  | case4 c cs hc ih =>
+    intro b h
+    have hc' : (c == '\\') = false := by simpa using hc
+    rw [paired_other _ _ hc'] at h
+    rw [List.cons_append, paired_other _ _ hc']
+    exact ih b h
+
+theorem quotedLoop_paired (q : Char) (hq : q ≠ '\\') (src : Str) : ∀ (n i : Nat) (esc : Bool) (acc chars : Str) (k : Nat),
+    paired acc = true → quotedLoop q src n i esc acc = .closed chars k → paired chars = true
+  | 0, _, _, _, _, _, _, h => by simp [quotedLoop] at h
+  | n + 1, i, esc, acc, chars, k, hp, h => by
+    unfold quotedLoop at h
+    split at h
+    · cases h
+    · rename_i c _
+      split at h
+      · split at h
+        · exact quotedLoop_paired q hq src n (i + 1) true acc chars k hp h
+        · rename_i hne
+          split at h
+          · refine quotedLoop_paired q hq src n (i + 1) false _ chars k ?_ h
+            rw [paired_append _ _ hp, paired_bs]; rfl
+          · rename_i hesc
+            refine quotedLoop_paired q hq src n (i + 1) false _ chars k ?_ h
+            rw [paired_append _ _ hp]
+            have hc : (c == '\\') = false := by
+              cases esc <;> simp_all
+            rw [paired_other _ _ hc]; rfl
+      · rename_i hcq
+        split at h
+        · refine quotedLoop_paired q hq src n (i + 1) false _ chars k ?_ h
+          rw [paired_append _ _ hp]
+          have hc : (c == '\\') = false := by
+            have : c = q := by simpa using hcq
+            rw [this]; simpa using hq
+          rw [paired_other _ _ hc]; rfl
+        · cases h; exact hp
+
+theorem escTags_skip : ∀ (n : Nat) (s : Str), escTags n s = escTags 0 (s.drop n)
+  | 0, _ => rfl
+  | _ + 1, [] => by simp [escTags]
+  | n + 1, _ :: cs => by
+    rw [escTags, List.drop_succ_cons]
+    exact escTags_skip n cs
+
+theorem testBit_tag (b : Bool) (n i : Nat) (h : n ≠ i) : (tag b n).testBit i = false := by
+  unfold tag
+  cases b
+  · simp
+  · simp only [if_true, Nat.one_shiftLeft, Nat.testBit_two_pow]
+    simpa using h
+
+theorem isDigit_not_bs {c : Char} (h : c.isDigit = true) : (c == '\\') = false := by
+  cases hc : c == '\\'
+  · rfl
+  · rw [beq_iff_eq] at hc; rw [hc] at h; revert h; decide
+
+theorem paired_drop_digits : ∀ (k : Nat) (ds : Str), paired ds = true →
+    paired (ds.drop ((ds.take k).takeWhile Char.isDigit).length) = true
+  | 0, ds, h => by simpa using h
+  | _ + 1, [], _ => by simp [paired]
+  | k + 1, x :: r, h => by
+    simp only [List.take_succ_cons, List.takeWhile_cons]
+    split
+    · rename_i hx
+      simp only [List.length_cons, List.drop_succ_cons]
+      apply paired_drop_digits k r
+      rw [paired_other _ _ (isDigit_not_bs hx)] at h
+      exact h
+    · simpa using h
+
+theorem no_lone_of_paired : ∀ (n : Nat) (s : Str), s.length ≤ n → paired s = true → (escTags 0 s).testBit 34 = false
+  | _, [], _, _ => by simp [escTags]
+  | 0, _ :: _, hl, _ => by simp at hl
+  | n + 1, c :: cs, hl, hp => by
+    have hl' : cs.length ≤ n := by simpa using hl
+    unfold escTags
+    split
+    · rename_i hc
+      cases cs with
+      | nil => rw [beq_iff_eq] at hc; subst hc; rw [paired.eq_def] at hp; simp at hp
+      | cons d ds =>
+        have hc2 : c = '\\' := by simpa using hc
+        subst hc2
+        rw [paired_bs] at hp
+        have hl2 : ds.length ≤ n := by simp at hl'; omega
+        simp only
+        split
+        · rw [Nat.testBit_or, testBit_tag _ _ _ (by decide), Bool.false_or, escTags_skip]
+          exact no_lone_of_paired n ds hl2 hp
+        · rename_i hse
+          split
+          · simp only [Nat.testBit_or, testBit_tag _ _ _ (show 36 ≠ 34 by decide), testBit_tag _ _ _ (show 37 ≠ 34 by decide), Bool.false_or]
+            rw [escTags_skip, Nat.add_comm, List.drop_succ_cons]
+            refine no_lone_of_paired n _ ?_ (paired_drop_digits 3 ds hp)
+            simp; omega
+          · rw [Nat.testBit_or, testBit_tag _ _ _ (by decide), Bool.false_or]
+            have hd : (d == '\\') = false := by
+              cases hdd : d == '\\'
+              · rfl
+              · rw [beq_iff_eq] at hdd; rw [hdd] at hse; simp [simpleEscape] at hse
+            refine no_lone_of_paired n (d :: ds) hl' ?_
+            rw [paired_other _ _ hd]; exact hp
+    · rename_i hc
+      rw [Nat.testBit_or, testBit_tag _ _ _ (by decide), Bool.false_or]
+      refine no_lone_of_paired n cs hl' ?_
+      have hc' : (c == '\\') = false := by simpa using hc
+      rw [paired_other _ _ hc'] at hp; exact hp
+
 end CV.Dotenv
